@@ -451,6 +451,14 @@ class ExprMixin:
             return z3.Or(*[ctx.zbool(p) for p in parts])
         if isinstance(container, SV) and container.ty.name in ("List", "Set", "Map"):
             container = ctx.wrap(container.t, container.ty)
+        if isinstance(container, SV) and container.ty.name == "Ref" and isinstance(item, str):
+            # dict-like object (an issue): optional keys are modelled by has_<key> fields
+            cls = container.ty.args[0].name
+            if self.field_info(cls, "has_" + item) is not None:
+                return ctx.term(self.field_read(container, "has_" + item), BOOL)
+            if self.field_info(cls, item) is not None:
+                return True
+            raise Unsupported(f"membership of key {item!r} in {cls} not modelled")
         if isinstance(container, Cell):
             if container.sym is None:
                 if container.kind == "dict":
